@@ -22,6 +22,7 @@ from fractions import Fraction as Fr
 
 from vlib import core
 from . import gq, gen, implrun
+from oracles import o_charpoly
 from .gq import G
 
 HEADER = """Require Import List ZArith QArith Bool.
@@ -93,21 +94,24 @@ def tie_charpoly(ctx):
     tries = 0
     while len(prepared) < count and tries < count * 20:
         tries += 1
-        N = rng.choice([2, 3])
-        case = gen.random_case(rng, hermitian=True, N=N, cplx=False, max_blocks=rng.choice([2, 2, 3]),
-                               max_size=2, max_params=2,
-                               fmt=rng.choice(["sympy", "sympy", "dense", "sparse"]))
+        partial = len(prepared) % 3 == 2
+        N = 3 if partial else rng.choice([2, 3])
+        small = lambda c: 2 <= len(c["sub"]) <= 4 and not (len(c["sub"]) == 2 and rng.random() < 0.7)
+        if partial:  # a 3-state block with a partial elimination mask (+ at most one more state)
+            case = o_charpoly.focused_case(rng, N, "partial-mask", accept=small, cplx=False, max_blocks=2, max_size=3,
+                                           max_params=2, fmt=rng.choice(["sympy", "sympy", "dense", "sparse"]))
+        else:
+            case = o_charpoly.focused_case(rng, N, "any", accept=small, cplx=False, max_blocks=rng.choice([2, 2, 3]),
+                                           max_size=2, max_params=2, fmt=rng.choice(["sympy", "sympy", "dense", "sparse"]))
         dim = len(case["sub"])
-        if dim > 4 or dim < 2 or (dim == 2 and rng.random() < 0.7):
-            continue
-        if gq.is_zero(gq.dec(case["H"][gen.key((0,) * case["nparam"])])):
-            continue  # H_0 = 0 is rejected by the library
         scales = [1] if case["nparam"] == 1 else [rng.choice([-2, -1, 1, 2, 3]) for _ in range(case["nparam"])]
         try:
             r = implrun.run(case)
         except Exception as e:
             disagreements.append(dict(what="block_diagonalize raised %s on a well-posed input" % type(e).__name__,
                                       input=dict(case=case, scales=scales), model="defined", impl=traceback.format_exc()[-800:]))
+            if len(disagreements) >= 20:
+                break
             continue
         mats = [substituted_real(s, dim, scales, N) for s in
                 (r["out"]["U"], r["out"]["U†"], r["H"], r["out"]["H_tilde"])]
